@@ -5,5 +5,6 @@ LM == INSTANCE Limiter
 VARIABLES l, poss, cur, failed, skip
 MInit(e) == LM!LimInit(e)
 MStep(s, e) == LM!LimStep(s, e)
-INSTANCE TraceLoop WITH InitStates <- MInit, Step <- MStep
+NoOne(e) == ""
+INSTANCE TraceLoop WITH InitStates <- MInit, Step <- MStep, One <- NoOne
 =============================================================================
